@@ -86,4 +86,13 @@ CHECKS.update({
         "technique": "symbolic execution (CrossHair + z3) of the real end-of-session processing over symbolic values/approvals on failure-shaped templates",
     },
 })
+CHECKS.update({
+    "C10": {
+        "text": "The real fix/create/update pipeline (D-core) runs on 21 snapshot shapes that contain user-controlled sub-expressions (Is(...), f-strings, star-expressions, nested snapshot()) next to managed siblings in list / tuple / dict value / dataclass keyword / top level, all int leaves symbolic (including values that make the user-controlled part compare unequal); on every path: no approved change replaces a user-controlled expression, every such segment in the new text is one of the old ones verbatim, none is added, star-containers are byte-identical, and with the user-controlled parts counted as matching the observed value equals the value read back (managed siblings are repaired).",
+        "note": "Shapes are enumerated; dirty-equals is not installed (same is_unmanaged route as Is()); f-string contents are concrete. Segments are recognised textually.",
+        "technique": "symbolic execution (CrossHair + z3) of the real pipeline on templates with user-controlled parts; change-object and text oracles per path",
+    },
+})
+CHECKS["C11"]["text"] += " (b) The real fix-only pipeline runs on lists/tuples/dicts/constructor calls whose previous elements are hand-written expressions (some wrapped in Is()): the solver confirms that every element of the equal common prefix and suffix, and every equal entry under a surviving key/keyword, keeps its source text verbatim while the value read back is the observed one."
+CHECKS["C11"]["note"] += " (b) sequences <=3/<=3 (thorough 4/4), 6 keyed shapes."
 NOT_APPLICABLE = {}
